@@ -136,4 +136,247 @@ theorem mask_blend_AA_lane (E : Env) (e o : BitVec 512) (k : Nat) (hk : k < 64) 
   have : ∀ i, i < 64 → X86.bit 0xAAAAAAAAAAAAAAAA i = i % 2 := by decide
   rw [this k hk]
 
+/-! ### ternary operations (`fmadd`) -/
+
+/-- `apply_dense!(op, l1, l2, l3)` -/
+def applyDense3 {Reg : Type} (op : Reg → Reg → Reg → Exec Reg) (l1 l2 l3 : DenseLane Reg) :
+    Exec (DenseLane Reg) := do
+  let t1 ← op l1.a l2.a l3.a
+  let t2 ← op l1.b l2.b l3.b
+  let t3 ← op l1.c l2.c l3.c
+  let t4 ← op l1.d l2.d l3.d
+  let t5 ← op l1.e l2.e l3.e
+  let t6 ← op l1.f l2.f l3.f
+  let t7 ← op l1.g l2.g l3.g
+  let t8 ← op l1.h l2.h l3.h
+  pure ({ a := t1, b := t2, c := t3, d := t4, e := t5, f := t6, g := t7, h := t8 } : DenseLane _)
+
+theorem fmadd_dense_default {T Reg : Type} (E : Env) (op : Reg → Reg → Reg → Exec Reg) :
+    SimdRegisterDefault.fmadd_dense (T := T) E op = applyDense3 op := rfl
+
+/-- a lane-wise ternary single-register operation applied to the eight fields is lane-wise on the dense lane -/
+theorem lanewise3_of_applyDense {T Reg : Type} {L : Nat} {lanes : Reg → Nat → T} {f : T → T → T → T}
+    {op : Reg → Reg → Reg → Exec Reg} (hL : 0 < L)
+    (hs : ∀ x y z, ∃ r, op x y z = pure r ∧ ∀ k, k < L → lanes r k = f (lanes x k) (lanes y k) (lanes z k)) :
+    Lanewise3 L lanes f op (applyDense3 op) := by
+  refine ⟨hs, ?_⟩
+  intro x y z
+  obtain ⟨r0, e0, h0⟩ := hs x.a y.a z.a
+  obtain ⟨r1, e1, h1⟩ := hs x.b y.b z.b
+  obtain ⟨r2, e2, h2⟩ := hs x.c y.c z.c
+  obtain ⟨r3, e3, h3⟩ := hs x.d y.d z.d
+  obtain ⟨r4, e4, h4⟩ := hs x.e y.e z.e
+  obtain ⟨r5, e5, h5⟩ := hs x.f y.f z.f
+  obtain ⟨r6, e6, h6⟩ := hs x.g y.g z.g
+  obtain ⟨r7, e7, h7⟩ := hs x.h y.h z.h
+  refine ⟨⟨r0, r1, r2, r3, r4, r5, r6, r7⟩, ?_, ?_⟩
+  · unfold applyDense3
+    rw [e0]; simp only [pure_bind]
+    rw [e1]; simp only [pure_bind]
+    rw [e2]; simp only [pure_bind]
+    rw [e3]; simp only [pure_bind]
+    rw [e4]; simp only [pure_bind]
+    rw [e5]; simp only [pure_bind]
+    rw [e6]; simp only [pure_bind]
+    rw [e7]; simp only [pure_bind]
+  · intro k hk
+    have hq := div_lt_8 hL hk
+    have hkm : k % L < L := Nat.mod_lt _ hL
+    simp only [dlanes_nth]
+    refine forall_lt_8 (fun q => lanes (DenseLane.nth _ q) (k % L)
+        = f (lanes (DenseLane.nth x q) (k % L)) (lanes (DenseLane.nth y q) (k % L))
+            (lanes (DenseLane.nth z q) (k % L)))
+      ?_ ?_ ?_ ?_ ?_ ?_ ?_ ?_ (k / L) hq
+    all_goals simp only [DenseLane.nth]
+    · exact h0 _ hkm
+    · exact h1 _ hkm
+    · exact h2 _ hkm
+    · exact h3 _ hkm
+    · exact h4 _ hkm
+    · exact h5 _ hkm
+    · exact h6 _ hkm
+    · exact h7 _ hkm
+
+/-- a fused multiply-add that is one lane-wise intrinsic, with the default dense form -/
+theorem lanewise3_of_map3 {w n L : Nat} (hw : 0 < w) (hL : 0 < L) (hn : w * L ≤ n)
+    (f : BitVec w → BitVec w → BitVec w → BitVec w)
+    (op : BitVec n → BitVec n → BitVec n → Exec (BitVec n))
+    (hop : ∀ x y z, op x y z = pure (X86.map3 w L f x y z))
+    (opD : DenseLane (BitVec n) → DenseLane (BitVec n) → DenseLane (BitVec n) → Exec (DenseLane (BitVec n)))
+    (hD : opD = applyDense3 op) :
+    Lanewise3 L (xlanes w) f op opD := by
+  rw [hD]
+  exact lanewise3_of_applyDense hL (fun x y z => ⟨_, hop x y z, fun k hk => xlanes_map3 hw hn f x y z k hk⟩)
+
+/-! ### horizontal folds: algebra -/
+
+section foldalg
+variable {T : Type} {op : T → T → T} {e : T}
+
+theorem sumR_add4 (g : Nat → T) (m : Nat) :
+    sumR op e g (m + 4) = op (op (op (op (sumR op e g m) (g m)) (g (m + 1))) (g (m + 2))) (g (m + 3)) := rfl
+
+theorem CommMonoidOn.interleave4 (hm : CommMonoidOn op e) (A B C D a b c d : T) :
+    op (op (op A a) (op B b)) (op (op C c) (op D d))
+      = op (op (op (op (op (op A B) (op C D)) a) b) c) d := by
+  rw [hm.swap4 A a B b, hm.swap4 C c D d, hm.swap4 (op A B) (op a b) (op C D) (op c d)]
+  simp only [hm.assoc]
+
+/-- four interleaved left-to-right accumulators over `4·n` values (`s_j = e ⊕ g j ⊕ g (j+4) ⊕ …`),
+combined as `(s0 ⊕ s1) ⊕ (s2 ⊕ s3)` — the scalar tail of the 8/16-bit horizontal folds -/
+def hfold4 (op : T → T → T) (e : T) (n : Nat) (g : Nat → T) : T :=
+  op (op (sumR op e (fun i => g (4 * i)) n) (sumR op e (fun i => g (4 * i + 1)) n))
+    (op (sumR op e (fun i => g (4 * i + 2)) n) (sumR op e (fun i => g (4 * i + 3)) n))
+
+theorem hfold4_congr (n : Nat) (g g' : Nat → T) (h : ∀ k, k < 4 * n → g k = g' k) :
+    hfold4 op e n g = hfold4 op e n g' := by
+  unfold hfold4
+  rw [sumR_congr (fun i => g (4 * i)) (fun i => g' (4 * i)) n (fun k hk => h _ (by omega)),
+    sumR_congr (fun i => g (4 * i + 1)) (fun i => g' (4 * i + 1)) n (fun k hk => h _ (by omega)),
+    sumR_congr (fun i => g (4 * i + 2)) (fun i => g' (4 * i + 2)) n (fun k hk => h _ (by omega)),
+    sumR_congr (fun i => g (4 * i + 3)) (fun i => g' (4 * i + 3)) n (fun k hk => h _ (by omega))]
+
+/-- in a commutative monoid the four interleaved accumulators compute the plain sum -/
+theorem hfold4_eq_sumR (hm : CommMonoidOn op e) (n : Nat) (g : Nat → T) :
+    hfold4 op e n g = sumR op e g (4 * n) := by
+  induction n with
+  | zero => simp [hfold4, hm.id_left]
+  | succ n ih =>
+    rw [Nat.mul_succ, sumR_add4, ← ih]
+    unfold hfold4
+    simp only [sumR_succ]
+    exact hm.interleave4 _ _ _ _ _ _ _ _
+
+/-- combining the upper half onto the lower half first does not change the sum -/
+theorem sumR_halves (hm : CommMonoidOn op e) (f : Nat → T) (C : Nat) :
+    sumR op e (fun k => op (f (C + k)) (f k)) C = sumR op e f (C + C) := by
+  rw [sumR_distrib hm (fun k => f (C + k)) f, hm.comm, ← sumR_append hm]
+
+/-- the 8/16-bit fold: halves combined lane-wise, then `hfold4` over the `C = 4·n` lanes -/
+def hfoldHalf4 (op : T → T → T) (e : T) (C n : Nat) (f : Nat → T) : T :=
+  hfold4 op e n (fun k => op (f (C + k)) (f k))
+
+theorem hfoldHalf4_eq_sumR (hm : CommMonoidOn op e) (n : Nat) (f : Nat → T) :
+    hfoldHalf4 op e (4 * n) n f = sumR op e f (4 * n + 4 * n) := by
+  unfold hfoldHalf4
+  rw [hfold4_eq_sumR hm, sumR_halves hm]
+
+/-- the 32-bit fold: halves combined, then `(g0 ⊕ g1) ⊕ (g2 ⊕ g3)` -/
+def hfoldHalfQ (op : T → T → T) (f : Nat → T) : T :=
+  op (op (op (f 4) (f 0)) (op (f 5) (f 1))) (op (op (f 6) (f 2)) (op (f 7) (f 3)))
+
+theorem hfoldHalfQ_eq_sumR (hm : CommMonoidOn op e) (f : Nat → T) :
+    hfoldHalfQ op f = sumR op e f 8 := by
+  have h := sumR_halves hm f 4
+  simp only [sumR, hm.id_left] at h
+  unfold hfoldHalfQ
+  simp only [sumR, hm.id_left] 
+  rw [← h]
+  simp only [hm.assoc]
+
+/-- the 64-bit fold: halves combined, then `g0 ⊕ g1` -/
+def hfoldHalfD (op : T → T → T) (f : Nat → T) : T := op (op (f 2) (f 0)) (op (f 3) (f 1))
+
+theorem hfoldHalfD_eq_sumR (hm : CommMonoidOn op e) (f : Nat → T) :
+    hfoldHalfD op f = sumR op e f 4 := by
+  have h := sumR_halves hm f 2
+  simp only [sumR, hm.id_left] at h
+  unfold hfoldHalfD
+  simp only [sumR, hm.id_left]
+  rw [← h]
+
+/-- the AVX-512 8/16-bit folds: 256-bit halves combined first, then the AVX2 fold -/
+def hfoldHalf512 (op : T → T → T) (e : T) (C n : Nat) (f : Nat → T) : T :=
+  hfoldHalf4 op e C n (fun k => op (f (C + C + k)) (f k))
+
+theorem hfoldHalf512_eq_sumR (hm : CommMonoidOn op e) (n : Nat) (f : Nat → T) :
+    hfoldHalf512 op e (4 * n) n f = sumR op e f (4 * n + 4 * n + (4 * n + 4 * n)) := by
+  unfold hfoldHalf512
+  rw [hfoldHalf4_eq_sumR hm, sumR_halves hm]
+
+theorem reduceOrdered_eq_sumR (init : T) (cnt : Nat) (v : Nat → T) :
+    X86.reduceOrdered op init cnt v = sumR op init v cnt := by
+  unfold X86.reduceOrdered
+  induction cnt with
+  | zero => rfl
+  | succ n ih => rw [List.range_succ, List.foldl_append, ih]; rfl
+
+end foldalg
+
+/-! ### horizontal folds: the scalar loop -/
+
+section foldloop
+variable {T : Type}
+
+/-- the 4-accumulator scalar loop of the 8/16-bit horizontal folds -/
+def fold4Loop (fuel : Nat) (op : T → T → T) (e : T) (B : Nat) (u : Slice T) : Exec T := do
+  let st1 ← loopM fuel ((0 : Nat), e, e, e, e)
+    (fun st1 => pure (decide (st1.1 < B)))
+    (fun st1 => do
+      let t1 ← arrGet u st1.1
+      let t2 ← arrGet u (st1.1 + 1)
+      let t3 ← arrGet u (st1.1 + 2)
+      let t4 ← arrGet u (st1.1 + 3)
+      pure (st1.1 + 4, op st1.2.1 t1, op st1.2.2.1 t2, op st1.2.2.2.1 t3, op st1.2.2.2.2 t4))
+  pure (op (op st1.2.1 st1.2.2.1) (op st1.2.2.2.1 st1.2.2.2.2))
+
+/-- with `n < fuel` the loop over an array of `4·n` values never faults and computes `hfold4` -/
+theorem fold4Loop_eq (fuel : Nat) (op : T → T → T) (e : T) (n : Nat) (u : Slice T) (hsz : u.size = 4 * n)
+    (hfuel : n < fuel) : fold4Loop fuel op e (4 * n) u = pure (hfold4 op e n u.get) := by
+  unfold fold4Loop
+  let step : Nat → T × T × T × T → Exec (T × T × T × T) := fun i s => do
+    let t1 ← arrGet u i
+    let t2 ← arrGet u (i + 1)
+    let t3 ← arrGet u (i + 2)
+    let t4 ← arrGet u (i + 3)
+    pure (op s.1 t1, op s.2.1 t2, op s.2.2.1 t3, op s.2.2.2 t4)
+  rw [loopM_counted fuel _ _ step (4 * n) 4 (by decide) (fun _ => rfl) (fun st => by simp [step])
+    n 0 (e, e, e, e) hfuel (by omega) (by intro m hm; omega)]
+  obtain ⟨s', hs', hinv⟩ := iter_inv step 4 0
+    (fun m s => s = (sumR op e (fun i => u.get (4 * i)) m, sumR op e (fun i => u.get (4 * i + 1)) m,
+      sumR op e (fun i => u.get (4 * i + 2)) m, sumR op e (fun i => u.get (4 * i + 3)) m))
+    n (e, e, e, e) rfl (by
+      intro m hm s hs
+      have e0 : 0 + m * 4 = 4 * m := by omega
+      have h0 : 4 * m < u.size := by omega
+      have h1 : 4 * m + 1 < u.size := by omega
+      have h2 : 4 * m + 2 < u.size := by omega
+      have h3 : 4 * m + 3 < u.size := by omega
+      refine ⟨_, ?_, rfl⟩
+      subst hs
+      rw [e0]
+      simp only [step, arrGet, h0, h1, h2, h3, if_true, pure_bind, sumR_succ])
+  rw [hs', hinv]
+  rfl
+
+end foldloop
+
+/-! ### horizontal folds: the 128-bit halves of a 256-bit register, the 256-bit halves of a 512-bit one -/
+
+theorem lane_setWidth {n m : Nat} (w k : Nat) (r : BitVec n) (hk : w * (k + 1) ≤ m) :
+    lane w k (r.setWidth m) = lane w k r := by
+  apply BitVec.eq_of_getLsbD_eq
+  intro j hj
+  rw [getLsbD_lane, getLsbD_lane, BitVec.getLsbD_setWidth]
+  have : w * k + j < m := by rw [Nat.mul_succ] at hk; omega
+  simp [this]
+
+theorem lane_ushiftRight {n : Nat} (w c k : Nat) (r : BitVec n) :
+    lane w k (r >>> (w * c)) = lane w (c + k) r := by
+  apply BitVec.eq_of_getLsbD_eq
+  intro j hj
+  rw [getLsbD_lane, getLsbD_lane, BitVec.getLsbD_ushiftRight, Nat.mul_add, Nat.add_assoc]
+
+/-- `op(extract128(r, 1), cast128(r))` lane-wise -/
+def half128 (w C : Nat) (op : BitVec w → BitVec w → BitVec w) (r : BitVec 256) : BitVec 128 :=
+  X86.map2 w C op ((r >>> 128).setWidth 128) (r.setWidth 128)
+
+theorem lane_half128 {w : Nat} (hw : 0 < w) (C : Nat) (hC : w * C = 128) (op : BitVec w → BitVec w → BitVec w)
+    (r : BitVec 256) (k : Nat) (hk : k < C) :
+    lane w k (half128 w C op r) = op (lane w (C + k) r) (lane w k r) := by
+  have hk1 : w * (k + 1) ≤ 128 := by rw [← hC]; exact Nat.mul_le_mul_left w hk
+  unfold half128
+  rw [lane_map2 hw (by omega) _ _ _ _ hk, lane_setWidth w k _ hk1, lane_setWidth w k _ hk1, ← hC,
+    lane_ushiftRight]
+
 end Cfavml
